@@ -50,6 +50,7 @@ def required_cells(tier):
             "nt:time-dependent": 2,
             "dt:none+caller": 1, "dt:equal": 1, "dt:mismatch": 1,
             "pt-tempo-identity": 1, "bath-observables": 1,
+            "bath-observables:rotated": 1,
             "entries_compared": 2000, "nan_entries_checked": 200}
 
 
@@ -72,7 +73,7 @@ def cases(tier, seed):
     out += [{"kind": "pttempo", "seed": seed, "idx": i, "tier": tier}
             for i in range(2 if tier == "quick" else 10)]
     out += [{"kind": "bath", "seed": seed, "idx": i, "tier": tier}
-            for i in range(2 if tier == "quick" else 10)]
+            for i in range(4 if tier == "quick" else 16)]
     return out
 
 
@@ -448,10 +449,17 @@ def run_bath(case):
     e = rng.normal(size=d)
     pr = rng.uniform(0.1, 1.0, size=d)
     pr /= pr.sum()
-    rho0 = np.diag(pr).astype(complex)
+    # pure dephasing written in a rotated (complex) basis for odd cases: H, O
+    # and rho0 share the eigenbasis V
+    vrot = gen.haar_unitary(rng, d) if i % 2 else np.eye(d, dtype=complex)
+
+    def rotm(a):
+        m = vrot @ a @ vrot.conj().T
+        return (m + m.conj().T) / 2
+    rho0 = rotm(np.diag(pr).astype(complex))
     corr = gen.make_power_law(p)
-    bath = oqupy.Bath(np.diag(o).astype(complex), corr)
-    sysm = oqupy.System(np.diag(e).astype(complex))
+    bath = oqupy.Bath(rotm(np.diag(o).astype(complex)), corr)
+    sysm = oqupy.System(rotm(np.diag(e).astype(complex)))
     pt = oqupy.pt_tempo_compute(bath, 0.0, lib.end_time(0.0, dt, nsteps),
                                 lib.tempo_params(dt, epsrel),
                                 progress_type="silent")
@@ -504,7 +512,9 @@ def run_bath(case):
                             f"w=({wa:.3g},{wb:.3g}) deviates from the "
                             f"displaced-oscillator form by {dev:.3e}",
                     "mechanism": "bath-correlation", "detail": {}})
-    return {"violations": violations[:6], "cells": ["bath-observables"],
+    return {"violations": violations[:6],
+            "cells": ["bath-observables"] + (["bath-observables:rotated"]
+                                             if i % 2 else []),
             "monitors": {"entries_compared": 10}, "nontrivial": True,
             "signature": f"bath-{i}", "maxratio": worst, "obs": {},
             "sample": gen.nice({"kind": "bath", "sd": p, "d": d})}
